@@ -12,6 +12,8 @@ module's deeper search; if that finds nothing the violation is still reported, e
 `no-failing-input-found`.
 """
 import argparse
+import atexit
+import shutil
 import hashlib
 import importlib
 import json
@@ -57,13 +59,27 @@ class Ctx:
         self.extra = {}
         self.t0 = time.time()
         self.findings = load_findings()
-        self.casedir = os.path.join(COQ, 'cases', prop)
+        # generated case files: one directory per running check (two checks of one property - quick and thorough, two
+        # seeds - may run at the same time); removed at exit, leftovers of dead processes removed here
+        root = os.path.join(COQ, 'cases')
+        os.makedirs(root, exist_ok=True)
+        for d in os.listdir(root):
+            name, _, pid = d.partition('.')
+            if name != prop:
+                continue
+            alive = False
+            if pid.isdigit():
+                try:
+                    os.kill(int(pid), 0)
+                    alive = True
+                except OSError:
+                    alive = False
+            if not alive:
+                shutil.rmtree(os.path.join(root, d), ignore_errors=True)
+        self.casedir = os.path.join(root, '%s.%d' % (prop, os.getpid()))
         os.makedirs(self.casedir, exist_ok=True)
-        for f in os.listdir(self.casedir):
-            try:
-                os.remove(os.path.join(self.casedir, f))
-            except OSError:
-                pass
+        if not os.environ.get('VERIF_KEEP_CASES'):
+            atexit.register(shutil.rmtree, self.casedir, True)
 
     # ---- sizes
     def n(self, quick, thorough):
